@@ -911,12 +911,12 @@ impl HestCtx {
 // ------------------------------------------------------------------------------ RQSC
 pub struct RqscCtx {
     pub t: acpi_tables::rqsc::RQSC,
-    pub tb: TB<320>,
+    pub tb: TB<192>,
 }
 impl RqscCtx {
     pub fn new_p(p: u8, has_adds: bool) -> Self {
         let oem = oem_for(p, has_adds);
-        let mut tb: TB<320> = TB::new();
+        let mut tb: TB<192> = TB::new();
         std_new!(tb, b"RQSC", oem);
         tb.exp.u32(0);
         RqscCtx { t: acpi_tables::rqsc::RQSC::new(oem.0, oem.1, oem.2), tb }
@@ -945,7 +945,7 @@ impl RqscCtx {
         self.go(o, e);
     }
     pub fn check<const P: u8>(&self) {
-        let r: Rec<320> = Rec::of(&self.t);
+        let r: Rec<192> = Rec::of(&self.t);
         let w = walk(&r, 40, &F_U8_U16AT2);
         let mut sub_ok = r.u32(36) as usize == w.count;
         // resources tile each controller: count @26, first resource @28, each type @0 len @2
@@ -985,7 +985,7 @@ impl RqscCtx {
             return;
         }
         // controller type is data (0/1), not a kind discriminator: order is checked by count only
-        table_verdicts::<P, 320>(&r, &self.tb, 40, &F_U8_U16AT2, sub_ok, false);
+        table_verdicts::<P, 192>(&r, &self.tb, 40, &F_U8_U16AT2, sub_ok, false);
     }
 }
 
